@@ -334,6 +334,16 @@ def esc(run, p):
                 name = v.func.attr if isinstance(v, ast.Call) and isinstance(v.func, ast.Attribute) else getattr(getattr(v, 'func', None), 'id', None)
                 run.ob('C03-ESC', '%s::%s::%s' % (f.rel, f.short, norm(r)[:50]), name in ('escape', 'escaped_bracket'),
                        'fixed fragment text `%s`' % norm(r)[:60], fn=f, node=r)
+    # the same fragments written without the flag: out.append((<text>, m, M, 'fixed')) with the text computed in place
+    for c in ast.walk(f.node):
+        if isinstance(c, ast.Call) and isinstance(c.func, ast.Attribute) and c.func.attr == 'append' and len(c.args) == 1 \
+                and isinstance(c.args[0], ast.Tuple) and len(c.args[0].elts) == 4 and isinstance(c.args[0].elts[3], ast.Constant) \
+                and c.args[0].elts[3].value == 'fixed' and not isinstance(c.args[0].elts[0], ast.Name):
+            n += 1
+            v = c.args[0].elts[0]
+            name = v.func.attr if isinstance(v, ast.Call) and isinstance(v.func, ast.Attribute) else getattr(getattr(v, 'func', None), 'id', None)
+            run.ob('C03-ESC', '%s::%s::%s' % (f.rel, f.short, norm(v)[:50]), name in ('escape', 'escaped_bracket'),
+                   'fixed fragment text `%s`' % norm(v)[:60], fn=f, node=c)
     run.floor('C03-ESC', n, 3)
 
 
@@ -472,72 +482,107 @@ def catsync(run, p):
     run.floor('C03-CATSYNC', len(sites), 2)
 
 
-CAPPED_OK = {'frag_strings': 'the set of distinct fragment strings is only used while it is small (alternation of literals)',
-             'n_strings': 'the counter that enforces the cap'}
+def _slot(t):
+    """the accumulator a store / mutating call is about: NAME[...] -> NAME (parallel lists, one entry per fragment);
+    obj.attr -> attr (one record per fragment, obj a local alias of it); None for plain locals and for self"""
+    if isinstance(t, ast.Subscript) and isinstance(t.value, ast.Name):
+        return t.value.id
+    if isinstance(t, ast.Attribute) and isinstance(t.value, ast.Name) and t.value.id not in ('self', 'cls'):
+        return t.attr
+    if isinstance(t, ast.Attribute) and isinstance(t.value, ast.Subscript) and isinstance(t.value.value, ast.Name):
+        return t.attr
+    return None
+
+
+def _size_limit(e):
+    """the expression reads a limit of the Size settings (size.max_..., self.size.max_...)"""
+    return any(isinstance(x, ast.Attribute) and ast.unparse(x.value) in ('size', 'self.size') for x in ast.walk(e))
 
 
 def evidence(run, p, rid='C03-EVIDENCE'):
     from ..flow import GuardMap
     from .common import names_in
     run.rule(rid, 'sampling caps limit what is remembered, never what is seen: in analyse_fragments every per-fragment accumulator '
-                  'that is returned (characters seen, fine-class and character run-length patterns) is updated for every example '
-                  'of the pattern - its update is not guarded by a Size limit or by the capped string counter; only the set of '
-                  'remembered fragment strings may be capped')
+                  '(characters seen, fine-class and character run-length patterns) is updated for every example of the pattern - its '
+                  'update is not guarded by a Size limit or by the capped string counter; only the set of remembered fragment strings, '
+                  'which that counter measures, may be capped')
     f = p.method('Extractor', 'analyse_fragments')
-    rets = [r for r in p.own_nodes(f) if isinstance(r, ast.Return) and r.value is not None]
-    outs = set()
-    for r in rets:
-        outs |= {x.id for x in ast.walk(r.value) if isinstance(x, ast.Name)}
     gm = GuardMap(f.node)
-    caps = {'n_strings'}
-    n = 0
+    loops = [n for n in p.own_nodes(f) if isinstance(n, ast.For)]
+    in_loop = {id(x) for l in loops for x in ast.walk(l)}
+    # the cap: a test against a Size limit; the counter is what it compares with the limit
+    cap_tests = []
+    counters = set()
+    for n in p.own_nodes(f):
+        if isinstance(n, ast.If) and id(n) in in_loop and _size_limit(n.test):
+            cap_tests.append(n)
+            for x in ast.walk(n.test):
+                k = _slot(x)
+                if k:
+                    counters.add(k)
+    # the counter is set from len(<the capped accumulator>)
+    capped_ok = set(counters)
+    counter_sets = []
+    updates = []
     for s in p.own_nodes(f):
-        names = set()
+        if id(s) not in in_loop:
+            continue
+        slots = []
         if isinstance(s, (ast.Assign, ast.AugAssign)):
             tg = s.targets if isinstance(s, ast.Assign) else [s.target]
             for t in tg:
-                for x in ast.walk(t):
-                    if isinstance(x, ast.Subscript) and isinstance(x.value, ast.Name):
-                        names.add(x.value.id)
+                for x in ([t] if not isinstance(t, (ast.Tuple, ast.List)) else t.elts):
+                    k = _slot(x)
+                    if k:
+                        slots.append(k)
         elif isinstance(s, ast.Expr) and isinstance(s.value, ast.Call) and isinstance(s.value.func, ast.Attribute) and \
                 s.value.func.attr in ('add', 'update', 'append', 'extend'):
-            for x in ast.walk(s.value.func.value):
-                if isinstance(x, ast.Name):
-                    names.add(x.id)
-        else:
+            k = _slot(s.value.func.value)
+            if k:
+                slots.append(k)
+        if not slots:
             continue
-        names &= outs
-        if not names:
-            continue
+        updates.append((s, slots))
+        if isinstance(s, ast.Assign) and set(slots) & counters:
+            counter_sets.append(s)
+            v = s.value
+            if isinstance(v, ast.Call) and getattr(v.func, 'id', '') == 'len' and len(v.args) == 1 and _slot(v.args[0]):
+                capped_ok.add(_slot(v.args[0]))
+    n = 0
+    for s, slots in updates:
         capped = []
         for g in gm.chain(s) or ():
             if g.kind != 'if':
                 continue
-            nm = names_in(g.test)
-            if any(x.startswith(('size.', 'self.size.')) or x in caps for x in nm):
+            if _size_limit(g.test) or any(_slot(x) in counters for x in ast.walk(g.test)):
                 capped.append(norm(g.test))
-        for nm in sorted(names):
+        for nm in sorted(set(slots)):
             n += 1
-            ok = not capped or nm in CAPPED_OK
+            ok = not capped or nm in capped_ok
             run.ob(rid, '%s::%s::%s' % (f.rel, f.short, nm), ok,
                    '%s is updated %s' % (nm, 'for every example' if not capped else
-                                         'only while `%s`%s' % (capped[0], ' (allowed: %s)' % CAPPED_OK[nm] if nm in CAPPED_OK else
+                                         'only while `%s`%s' % (capped[0], ' (allowed: the remembered strings and the counter of them)' if nm in capped_ok else
                                                                 ': characters or run patterns of later examples are never seen, so the class chosen '
                                                                 'for the fragment can exclude them')), fn=f, node=s)
     # the counter that enforces the cap counts what the cap is about: the distinct strings stored, not the examples seen
+    for s in counter_sets:
+        n += 1
+        v = s.value
+        ok = isinstance(v, ast.Call) and getattr(v.func, 'id', '') == 'len' and len(v.args) == 1 and _slot(v.args[0]) is not None and \
+            any(_slot(v.args[0]) in sl and s2 is not s for s2, sl in updates)
+        run.ob(rid, '%s::%s::cap-counter' % (f.rel, f.short), ok,
+               'the cap counter is set by `%s`%s' % (norm(s)[:50], '' if ok else
+                                                     ': it no longer counts the distinct strings stored, so collection can stop while '
+                                                     'only one distinct string has been seen and the fragment is taken for a constant'),
+               fn=f, node=s)
     for s in p.own_nodes(f):
-        if isinstance(s, (ast.Assign, ast.AugAssign)):
-            tg = s.targets if isinstance(s, ast.Assign) else [s.target]
-            if any(isinstance(t, ast.Subscript) and isinstance(t.value, ast.Name) and t.value.id in caps for t in tg):
-                n += 1
-                v = s.value
-                ok = isinstance(s, ast.Assign) and isinstance(v, ast.Call) and getattr(v.func, 'id', '') == 'len' and len(v.args) == 1 and \
-                    isinstance(v.args[0], ast.Subscript) and isinstance(v.args[0].value, ast.Name) and v.args[0].value.id in CAPPED_OK
-                run.ob(rid, '%s::%s::cap-counter' % (f.rel, f.short), ok,
-                       'the cap counter is set by `%s`%s' % (norm(s)[:50], '' if ok else
-                                                             ': it no longer counts the distinct strings stored, so collection can stop while '
-                                                             'only one distinct string has been seen and the fragment is taken for a constant'),
-                       fn=f, node=s)
+        if isinstance(s, ast.AugAssign) and _slot(s.target) in counters:
+            n += 1
+            run.ob(rid, '%s::%s::cap-counter' % (f.rel, f.short), False,
+                   'the cap counter is set by `%s`: it no longer counts the distinct strings stored, so collection can stop while only '
+                   'one distinct string has been seen and the fragment is taken for a constant' % norm(s)[:50], fn=f, node=s)
+    if not cap_tests:
+        run.note(rid, 'no Size limit is tested in analyse_fragments: nothing is capped', f, f.node)
     run.floor(rid, n, 5)
 
 
